@@ -40,22 +40,33 @@ package ecmascript
 //@ sig context.CancelFunc()
 //@   modifies nothing
 
-// RunProgram (this package, has a deferred recover): never panics; the script
-// may call any closure stored in the environment any number of times and may
-// change any object created since `mark` (everything exposed to it is), but
-// nothing older.
-//@ func RunProgram returns v, err
-//@   trusted
+// goja's RunProgram: the script may call any closure stored in the environment
+// any number of times and may change any object created since `mark`
+// (everything exposed to it is), but nothing older. The error it returns for
+// a thrown value is a *goja.Exception, whose Error() can itself panic.
+//@ extern (*github.com/dop251/goja.Runtime).RunProgram(o, p) returns (v, err)
 //@   logical mark ref
 //@   modifies since(mark)
 //@   ensures err == nil ==> v != nil
 
-//@ globalinv Interrupted: Interrupted != nil
+// RunProgram (this package, has a deferred recover): never panics (trusted: the
+// recover is not modelled; the frame is assumed). Checked: the error it hands
+// back is an interrupt or a PLAIN error - one whose Error() is total - so that
+// core may print it outside any recover.
+//@ func RunProgram returns v, err
+//@   trustedframe
+//@   logical mark ref
+//@   modifies since(mark)
+//@   ensures err == nil ==> v != nil
+//@   ensures[C07] plainerr: err != nil ==> plain(err) || is(err, *goja.InterruptedError)
+
+//@ globalinv Interrupted: Interrupted != nil && plain(Interrupted)
 
 // ---- the interpreter ----
 
 //@ func (*Interpreter).Compile returns obj, err
 //@   safety C07
+//@   ensures[C07] plainerr: err != nil ==> plain(err)
 //@   modifies[C10,C12] nothing
 
 // The `out` closure of Exec: appends one canonicalised message to the execution.
@@ -84,6 +95,7 @@ package ecmascript
 //@   onwrite[C10,C18] env: ref(value) == nil || ref(value) >= mark || isfunc(value) || key == "ctx"
 //@   onwrite[C09] env: key == "bindings" ==> ref(value) == ref(lastret(core.Canonicalize, y))
 //@   ensures[C07] total: exe != nil || err != nil
+//@   ensures[C07] plainerr: err != nil ==> plain(err) || is(err, *goja.InterruptedError)
 //@   ensures[C07] wf: exe != nil ==> exe.Events != nil && exe.Events.Traces != nil && fresh(exe) && fresh(exe.Events)
 //@   ensures[C08] atomic: err != nil ==> exe == nil || len(exe.Emitted) == 0
 //@   ensures[C06,C10] noalias: exe != nil ==> exe.Bs == nil || fresh(exe.Bs)
